@@ -93,7 +93,11 @@ def gen_cfg(rng, kinds=ALL, ty=None, probe=True, nch=None, max_chunk=None, sinc_
     # FFT
     ri, ro = rng.choice([(44100, 48000), (48000, 44100), (48000, 96000), (96000, 48000), (44100, 88200),
                          (16000, 48000), (48000, 16000), (8000, 44100), (44100, 8000), (3, 2), (2, 3), (1, 1),
-                         (7, 5), (147, 160), (1000, 1001), (48000, 48000), (44100, 44101)])
+                         (7, 5), (147, 160), (1000, 1001), (48000, 48000), (44100, 44101),
+                         # block sizes with large prime factors (FFT scratch needs, planner paths) and sizes whose f32
+                         # reciprocal is inexact (61, 41, 47, 83, 97, 107, ...)
+                         (44100, 44056), (8300, 8000), (14900, 16000), (8000, 10700), (61000, 48000), (41000, 48000),
+                         (47, 48), (83, 80), (97, 96), (107, 100), (122, 121), (55, 54)])
     if rng.random() < 0.4:
         std = [8000, 11025, 16000, 22050, 32000, 44100, 48000, 88200, 96000, 176400, 192000]
         ri, ro = rng.choice(std), rng.choice(std)
@@ -102,6 +106,9 @@ def gen_cfg(rng, kinds=ALL, ty=None, probe=True, nch=None, max_chunk=None, sinc_
         # any request size: the block-size arithmetic (f32 ceil, integer products) must be right for all of them
         chunk = rng.randint(1, 4096)
     g = math.gcd(ri, ro)
+    if ri // g < 200 and rng.random() < 0.3:
+        # requests that are exact small multiples of the block (carry-over lands exactly on block boundaries)
+        chunk = (ri // g) * rng.randint(1, 8)
     # keep FFT sizes small enough to be fast
     if max(ri, ro) // g > 3000:
         chunk = min(chunk, 64)
